@@ -27,6 +27,31 @@ var wrapErrorFuncs = map[string]bool{
 }
 
 func (fr *Frame) nativeCall(st *State, fn *ssa.Function, c *ssa.CallCommon, args []Val, v ssa.Value) (Val, bool) {
+	if name := fn.String(); (name == "errors.As" || name == "github.com/pkg/errors.As" || name == "github.com/pingcap/errors.As") && len(c.Args) == 2 {
+		// errors.As(err, &target): false for a nil error; when it answers true the target holds a non-nil value of its
+		// type; when false the target is untouched
+		if mi, ok := c.Args[1].(*ssa.MakeInterface); ok {
+			if pt, ok := mi.X.Type().Underlying().(*types.Pointer); ok {
+				r := fr.run
+				r.assumed["native:"+name] = true
+				errT := types.Universe.Lookup("error").Type()
+				e := fr.tvOf(st, args[0], errT)
+				okv := r.declare("asok", SBool)
+				r.assumeGlobal(implies(eq(app("i_tag", e.S), "0"), not(okv)))
+				cell := fr.tv(st, mi.X)
+				old := r.loadAt(st, cell.S, pt.Elem())
+				nv := r.freshOf(st, "astarget", pt.Elem())
+				switch pt.Elem().Underlying().(type) {
+				case *types.Pointer:
+					r.assumeGlobal(not(eq(nv.S, "0")))
+				case *types.Interface:
+					r.assumeGlobal(not(eq(app("i_tag", nv.S), "0")))
+				}
+				r.storeAt(st, cell.S, pt.Elem(), TV{ite(okv, nv.S, old.S), nv.Sort, pt.Elem()})
+				return TV{okv, SBool, types.Typ[types.Bool]}, true
+			}
+		}
+	}
 	return fr.nativeCallVals(st, fn, args, c.Signature())
 }
 
